@@ -34,7 +34,10 @@ import datetime
 from fcp.utils import to_pascal_case, to_snake_case
 from fcp.specs.impl import Impl
 from fcp.codegen import CodeGenerator
-from fcp.verifier import Verifier
+from fcp.verifier import Verifier, register
+from fcp.result import Result, Ok
+from fcp.error import FcpError, error
+from fcp.types import Nil
 from fcp.specs.v2 import FcpV2, encode_version
 from fcp.specs.struct import Struct
 from fcp.specs.type import Type, StructType
@@ -258,6 +261,47 @@ class Generator(CodeGenerator):
             for output_file, template_name, template_arguments in output_builder.output
         ]
 
-    def register_checks(self, verifier: Verifier) -> NoReturn:  # type: ignore
+    def register_checks(self, verifier: Verifier) -> None:  # type: ignore
         """Register cpp specific checks."""
-        pass
+
+        @register(verifier, "service")  # type: ignore
+        def check_service_rpc(
+            self: Any, fcp: FcpV2, service: Any
+        ) -> Result[Nil, FcpError]:
+            """Check that the rpc layer can be generated for a service.
+
+            Service and method ids travel in 8 bits and become enumerators, and
+            every payload is wrapped in a struct.
+            """
+            services = fcp.services
+            if [s.name for s in services].count(service.name) > 1:
+                return error("Duplicate service names", node=service)
+            if [s.id for s in services].count(service.id) > 1:
+                return error("Duplicate service ids", node=service)
+            if not 0 <= service.id <= 255:
+                return error(
+                    f"Id of service {service.name} must fit in 8 bits", node=service
+                )
+
+            for method in service.methods:
+                if [m.name for m in service.methods].count(method.name) > 1:
+                    return error(
+                        f"Duplicate method names in service {service.name}",
+                        node=method,
+                    )
+                if [m.id for m in service.methods].count(method.id) > 1:
+                    return error(
+                        f"Duplicate method ids in service {service.name}", node=method
+                    )
+                if not 0 <= method.id <= 255:
+                    return error(
+                        f"Id of method {method.name} must fit in 8 bits", node=method
+                    )
+                for payload in (method.input, method.output):
+                    if fcp.get_struct(payload).is_nothing():
+                        return error(
+                            f"No matching struct {payload} for method {method.name}",
+                            node=method,
+                        )
+
+            return Ok(())
